@@ -30,6 +30,7 @@
 (* Any, on strings: URL = prefix "/" full-name;  MessageName(url) = the    *)
 (* part after the last '/' if it is a full name, else "";  MessageIs(url,  *)
 (* n) = url is n or ends in "/" n;  New(m) = "type.googleapis.com/" name.  *)
+(* The Any API as a state machine over messages is module AnyBox.          *)
 (***************************************************************************)
 EXTENDS WktForms
 
@@ -142,7 +143,17 @@ LastIndexOf(s, c) == LastIndexFrom(s, c, Len(s))
 AfterLastSlash(url) == SubSeq(url, LastIndexOf(url, cSlash) + 1, Len(url))
 HasSuffix(s, t) == Len(t) <= Len(s) /\ SubSeq(s, Len(s) - Len(t) + 1, Len(s)) = t
 AnyUrlOf(name) == StdPrefix \o name
-MessageName(url) == LET n == AfterLastSlash(url) IN IF IsFullName(n) THEN n ELSE <<>>
+\* IsFullName (WktForms: a dot-separated list of identifiers) as one left-to-right pass from position i; start: an identifier
+\* has to begin here.  MC_StructVal checks that the pass and the definition agree on every string it explores.
+RECURSIVE FullNameFrom(_, _, _)
+FullNameFrom(s, i, start) ==
+  IF i > Len(s) THEN ~start
+  ELSE IF start THEN IsIdentStart(s[i]) /\ FullNameFrom(s, i + 1, FALSE)
+  ELSE IF s[i] = cDot THEN FullNameFrom(s, i + 1, TRUE)
+  ELSE IsIdentChar(s[i]) /\ FullNameFrom(s, i + 1, FALSE)
+IsFullNameScan(s) == FullNameFrom(s, 1, TRUE)
+MessageNameDef(url) == LET n == AfterLastSlash(url) IN IF IsFullName(n) THEN n ELSE <<>>
+MessageName(url) == LET k == LastIndexOf(url, cSlash) IN IF FullNameFrom(url, k + 1, TRUE) THEN SubSeq(url, k + 1, Len(url)) ELSE <<>>
 MessageIs(url, name) == HasSuffix(url, name) /\ (Len(url) = Len(name) \/ url[Len(url) - Len(name)] = cSlash)
 \* resolution of a URL against a set of registered full names: the text after the last '/' must be registered
 Resolves(url, registered) == url # <<>> /\ AfterLastSlash(url) \in registered
